@@ -63,6 +63,16 @@ Theorem C05_simple_optimal : forall flip mx my N gs, constraint_metric mx ->
 Proof. exact simple_optimal. Qed.
 Print Assumptions C05_simple_optimal.
 
+(* "in particular it is never worse than the best constant classifier": c = false predicts 0 everywhere
+   (operation > +inf), c = true predicts 1 everywhere (operation > -inf) *)
+Theorem C05_simple_beats_constants : forall flip mx my N gs (c : bool), constraint_metric mx ->
+  (forall g, In g gs -> both_labels g = true) ->
+  let f := fit_simple flip mx my N gs in
+  qsum (map (fun g => gweight gs g * metric_eval my (exp_cm (op_rule (mkop OpGt (const_thr c))) g)) gs)
+  <= nth (fs_best f) (fs_overall f) 0.
+Proof. exact simple_beats_constants. Qed.
+Print Assumptions C05_simple_beats_constants.
+
 (* equalized odds: any rule giving every group the same (FPR, TPR) = (k/N, y) by randomising over the group's
    threshold rules has an overall objective (from the overall label counts) not above the arg-max value ... *)
 Theorem C05_eo_optimal : forall flip obj N gs, obj = Acc \/ obj = BalAcc -> gs <> [] ->
